@@ -13,7 +13,7 @@ RULE = ('L1: every single-clause predicate p(t1..tk) :- B, k<=2 over 13 head-arg
         'of <=2 [thorough: 3] clauses over p/1,q/1 with head argument in {X,a,b,f(X)} and body of <=1 goal '
         '[thorough, 2-clause programs: <=2 goals] over p|q x {X,Y,a,b,f(X)} (direct, mutual and left recursion, '
         'duplicate clauses), queries p(A) p(a) p(f(A)) q(A). L3: append/member/len/nat/rev/in/path idioms over '
-        'every DAG on 3 nodes in every argument mode. Each program is compiled, loaded into a fresh engine and '
+        'every DAG on 3 nodes in every argument mode. L4: 6 templates with many anonymous variables (alone and combined in one program, so that the program-wide numbering of _ reaches 13) x EVERY injective naming of their two named variables from a menu of 44 names (_1.._14, look-alikes of the compiler\'s own argument, loop, flag and prefix names, Python constants). Each program is compiled, loaded into a fresh engine and '
         'every query is compared answer by answer (bindings up to renaming incl. aliasing, order, multiplicity, '
         'termination under a deterministic step budget, no exception) with RefProlog. states = distinct '
         'per-program outcome tuples; transitions = next() calls; non-trivial = some query has an answer')
@@ -172,6 +172,106 @@ def l3_cases():
     return cases
 
 
+# ---------------------------------------------------------------- L4: variable names
+# The compiler maps source variables to Python identifiers; answers must be invariant under a
+# consistent renaming of the variables of a program.  The templates use the placeholders A, B and
+# many anonymous variables (their numbering runs over the whole program); every injective
+# assignment of (A, B) to names from NAME_MENU is compiled and compared with RefProlog, for which
+# names are opaque.
+NAME_MENU = ['X', 'Y', '_1', '_2', '_3', '_4', '_5', '_6', '_7', '_8', '_9', '_10', '_11', '_12', '_13', '_14', '_01',
+             'X1', 'X2', 'L1', 'L2', 'Arg1', 'Arg2', 'V_X', 'V__1', 'V_x1', '_x1', '_X1', 'X_1', '__', '___', '_G1', '_G2',
+             'Anon1', '_anon1', 'Tmp1', '_V1', 'V1', 'DoBreak', 'CutIf1', '_L1', 'True', 'ATOM_NIL', 'Yield']
+
+
+def l4_templates():
+    Av, Bv = V('A'), V('B')
+
+    def an(n):
+        return ('v', ('_', n))
+    a, b, c = A('a'), A('b'), A('c')
+    t = []
+    t.append(('t1', [(F('t', an(1), Av, Av), None)], [F('t', a, b, b), F('t', QA, QB, V('Cq')), F('t', a, b, c)]))
+    t.append(('s', [(F('e', a, b), None), (F('e', b, c), None), (F('e', c, a), None),
+                    (F('s', Av), conj(call(F('e', an(1), Av)), call(F('e', Av, an(2)))))], [F('s', QA)]))
+    t.append(('u', [(F('u', an(1), an(2), Av, Bv), call(F('=', Av, Bv)))], [F('u', C(1), C(2), QA, QB), F('u', QA, QA, a, QB)]))
+    t.append(('w', [(F('q', a), None), (F('q', b), None), (F('r', a, C(1)), None), (F('r', C(2), b), None),
+                    (F('w', Av, Bv), conj(call(F('q', an(1))), call(F('r', Av, an(2))), call(F('r', an(3), Bv))))], [F('w', QA, QB)]))
+    t.append(('h', [(F('h', L([an(1)], Av), Av, an(2)), None), (F('h2', F('f', an(3), Av), Bv), call(F('=', Av, Bv)))],
+              [F('h', L([a, b]), QA, QB), F('h2', F('f', C(1), C(2)), QA), F('h2', QA, QB)]))
+    t.append(('k', [(F('q', a), None), (F('k', an(1), Av), call(F('q', Av))), (F('k', Av, an(2)), call(F('q', Av)))], [F('k', QA, QB)]))
+    return t
+
+
+def l4_programs():
+    ts = l4_templates()
+    progs = [(name, cl, qs) for name, cl, qs in ts]
+    # all templates in one program: the anonymous variables get program-wide indices 1..13
+    allc, allq = [], []
+    seen = set()
+    n = 0
+    for name, cl, qs in ts:
+        for h, b in cl:
+            key = repr((h, b))
+            if key in seen:
+                continue
+            seen.add(key)
+            m = {}
+
+            def ren(t_):
+                if t_[0] == 'v' and isinstance(t_[1], tuple):
+                    if t_[1] not in m:
+                        m[t_[1]] = ('v', ('_', 100 + len(seen) * 10 + len(m)))
+                    return m[t_[1]]
+                if t_[0] == 'f':
+                    return ('f', t_[1], tuple(ren(x) for x in t_[2]))
+                return t_
+
+            def renb(b_):
+                if b_ is None:
+                    return None
+                if b_[0] == 'call':
+                    return ('call', ren(b_[1]))
+                if b_[0] in (',', ';', '->'):
+                    return (b_[0], renb(b_[1]), renb(b_[2]))
+                return b_
+            allc.append((ren(h), renb(b)))
+        allq += qs
+    progs.append(('all', allc, allq))
+    return progs
+
+
+def rename_vars(clauses, na, nb):
+    def ren(t_):
+        if t_[0] == 'v' and t_[1] == 'A':
+            return ('v', na)
+        if t_[0] == 'v' and t_[1] == 'B':
+            return ('v', nb)
+        if t_[0] == 'f':
+            return ('f', t_[1], tuple(ren(x) for x in t_[2]))
+        return t_
+
+    def renb(b_):
+        if b_ is None:
+            return None
+        if b_[0] == 'call':
+            return ('call', ren(b_[1]))
+        if b_[0] in (',', ';', '->'):
+            return (b_[0], renb(b_[1]), renb(b_[2]))
+        return b_
+    return [(ren(h), renb(b)) for h, b in clauses]
+
+
+def l4_cases():
+    idx = 0
+    for name, cl, qs in l4_programs():
+        for na in NAME_MENU:
+            for nb in NAME_MENU:
+                if na == nb:
+                    continue
+                yield idx, name, cl, qs, na, nb
+                idx += 1
+
+
 # ---------------------------------------------------------------- plan / run
 NSH = 48
 
@@ -184,6 +284,7 @@ def plan(tier):
         sh += [('L2', k, 4 * NSH, 3, 1) for k in range(4 * NSH)]
         sh += [('L2', k, 4 * NSH, 2, 2) for k in range(4 * NSH)]
     sh += [('L3', k, 8) for k in range(8)]
+    sh += [('L4', k, NSH) for k in range(NSH)]
     return sh
 
 
@@ -213,6 +314,19 @@ def run_shard(spec):
             account(acc, ('L2', ncl, maxgoals, idx), case, res, key=case.describe()['scripts'][0]['text'])
             if idx % 5003 == 0 and res['status'] == 'ok' and res['nontrivial']:
                 acc.sample({'layer': 'L2', 'program': case.describe()['scripts'][0]['text']}, limit=1)
+    elif spec[0] == 'L4':
+        _, k, n = spec
+        for idx, name, cl, qs, na, nb in l4_cases():
+            if idx % n != k:
+                continue
+            prog = rename_vars(cl, na, nb)
+            case = Case([(prog, True, False)], [], qs, repeat=1, budget=True)
+            res = case.run()
+            if res['status'] == 'violation':
+                res['sig'] = 'variable-names:' + res['sig']
+            account(acc, ('L4', idx), case, res, key='%s|%s|%s' % (name, na, nb))
+            if idx % 2003 == 0 and res['status'] == 'ok':
+                acc.sample({'layer': 'L4', 'template': name, 'A_named': na, 'B_named': nb, 'program': case.describe()['scripts'][0]['text'][:300]}, limit=1)
     else:
         _, k, n = spec
         for idx, (name, prog, queries) in enumerate(l3_cases()):
